@@ -2,17 +2,22 @@ package main
 
 import (
 	"bytes"
+	"context"
 	"encoding/json"
 	"fmt"
+	"net/netip"
 	"os"
 	"path/filepath"
 	"reflect"
 	"runtime"
 	"strings"
+	"time"
 	"unsafe"
 
 	"ssvharness/internal/common"
 
+	"github.com/database64128/shadowsocks-go/conn"
+	"github.com/database64128/shadowsocks-go/router"
 	"github.com/database64128/shadowsocks-go/service"
 	"github.com/database64128/shadowsocks-go/ss2022"
 	"go.uber.org/zap"
@@ -53,6 +58,9 @@ type ImplResult struct {
 	Line   string // "decode-err" | "err <class>" | "ok S[...] C[...]" | "panic ..."
 	ErrMsg string
 	Eff    *Eff
+	// RoutePanic: what the router of the accepted configuration did when asked for a client for a
+	// request arriving on each server ("" = no panic)
+	RoutePanic string
 }
 
 type EffUL struct {
@@ -113,7 +121,7 @@ func load(doc []byte, migrate bool) (res ImplResult) {
 			res = ImplResult{Line: "harness-error " + err.Error()}
 			return
 		}
-		res = ImplResult{Line: eff.String(), Eff: eff}
+		res = ImplResult{Line: eff.String(), Eff: eff, RoutePanic: routeEveryServer(sc, m)}
 	}); p != nil {
 		return ImplResult{Line: fmt.Sprintf("panic %v", p)}
 	}
@@ -216,6 +224,31 @@ func effective(sc *service.Config, m *service.Manager) (eff *Eff, err error) {
 }
 
 var _ = ss2022.ForceReset
+
+// routeEveryServer asks the built router for the TCP and the UDP client of one request per configured
+// server (what the relays do for the first connection / packet on that server): IP source and target, no
+// user, then user "Steve". Errors (rejected, no client) are fine; a panic is what a relay goroutine would die of.
+func routeEveryServer(sc *service.Config, m *service.Manager) (panicked string) {
+	rt, ok := fld(reflect.ValueOf(m), "router").Interface().(*router.Router)
+	if !ok || rt == nil {
+		return "harness: no router"
+	}
+	ctx, cancel := context.WithTimeout(context.Background(), 2*time.Second)
+	defer cancel()
+	for i := range sc.Servers {
+		for _, user := range []string{"", "Steve"} {
+			ri := router.RequestInfo{ServerIndex: i, Username: user, SourceAddrPort: netip.MustParseAddrPort("127.0.0.1:40000"),
+				TargetAddr: conn.AddrFromIPPort(netip.MustParseAddrPort("10.1.2.3:443"))}
+			if p := common.Safely(func() {
+				rt.GetTCPClient(ctx, ri)
+				rt.GetUDPClient(ctx, ri)
+			}); p != nil {
+				return fmt.Sprintf("request on server index %d (%q): %v", i, sc.Servers[i].Name, p)
+			}
+		}
+	}
+	return ""
+}
 
 // ---------- error classes ----------
 
